@@ -91,6 +91,8 @@ class C08Scenario(Scenario):
     def setup(self, env: Env) -> None:
         K = self.kind
         init: dict[str, Any] = {'spec': {'x': 1, 'items': ['a']}, 'status': {'counter': 0}}
+        if self.params.get('nostatus'):
+            del init['status']       # a fresh object: the first write into .status creates the stanza (op path exactly '/status')
         obj = env.world.create(K, 'ns', 'a', init)
         if 'remove_fin' in self.params['fns']:
             env.world.edit(K, 'ns', 'a', lambda o: o['metadata'].setdefault('finalizers', []).extend(['first/fin', FIN, 'last/fin']))
@@ -296,6 +298,10 @@ def scenarios(tier: str) -> tuple[list[C08Scenario], list[C08Scenario]]:
             (deep if len(foreign) == 2 else base).append(sc)
         base.append(C08Scenario(fields=fields, fns=fns, sub=sub, foreign=[], inject=True))
         base.append(C08Scenario(fields=fields, fns=fns, sub=sub, foreign=['fin'], inject=True))
+        if 'status_fn' in fns:
+            for foreign in ([], ['spec'], ['fin']):
+                base.append(C08Scenario(fields=fields, fns=fns, sub=sub, foreign=foreign, inject=False, nostatus=True))
+            base.append(C08Scenario(fields=fields, fns=fns, sub=sub, foreign=[], inject=True, nostatus=True))
     return base, deep
 
 
